@@ -86,7 +86,7 @@ void pmc_run(const char* config) {
 }
 
 static const PmcConfig CFG[] = {
-    {"S9|i0",            3, {2,3}, {0,0}, {0,0}, {0,0}, "interrupt an infinite sleeper from another vCPU"},
+    {"S9|i0",            3, {1,3}, {0,0}, {0,0}, {0,0}, "interrupt an infinite sleeper from another vCPU"},
     {"S9|@i0",           3, {2,3}, {0,0}, {0,0}, {0,0}, "... from a plain OS thread"},
     {"S2|i0:tdev",       3, {1,2}, {1,1}, {0,0}, {2,3}, "interrupt racing with the deadline"},
     {"S1,S2,S3|i1",      3, {1,2}, {0,0}, {0,0}, {0,0}, "remove from the middle of the heap"},
